@@ -72,6 +72,115 @@ def _bound_names(tree):
     return names if walk(tree.body) is not False else None
 
 
+def _bind_names(stmts):
+    """names bound by statements of one scope (compound statements included, nested scopes not entered)"""
+    out = set()
+
+    def tgt(t):
+        if isinstance(t, ast.Name): out.add(t.id)
+        elif isinstance(t, (ast.Tuple, ast.List)):
+            for e in t.elts: tgt(e)
+        elif isinstance(t, ast.Starred): tgt(t.value)
+
+    def walk(sts):
+        for st in sts:
+            if isinstance(st, (ast.FunctionDef, ast.AsyncFunctionDef, ast.ClassDef)): out.add(st.name)
+            elif isinstance(st, ast.Assign):
+                for t in st.targets: tgt(t)
+            elif isinstance(st, (ast.AnnAssign, ast.AugAssign)): tgt(st.target)
+            elif isinstance(st, (ast.Import, ast.ImportFrom)):
+                for a in st.names: out.add(a.asname or a.name.split(".")[0])
+            elif isinstance(st, ast.Try):
+                for h in st.handlers:
+                    if h.name: out.add(h.name)
+                    walk(h.body)
+                walk(st.body); walk(st.orelse); walk(st.finalbody)
+            elif isinstance(st, (ast.If, ast.While)): walk(st.body); walk(st.orelse)
+            elif isinstance(st, (ast.For, ast.AsyncFor)): tgt(st.target); walk(st.body); walk(st.orelse)
+            elif isinstance(st, (ast.With, ast.AsyncWith)):
+                for it in st.items:
+                    if it.optional_vars is not None: tgt(it.optional_vars)
+                walk(st.body)
+    walk(stmts)
+    for n in ast.walk(ast.Module(body=list(stmts), type_ignores=[])):       # walrus targets
+        if isinstance(n, ast.NamedExpr): tgt(n.target)
+    return out
+
+
+def eager_undefined_names(tree):
+    """names READ while the module is being imported (module level, class bodies, decorators, default values, base classes; annotations
+    unless `from __future__ import annotations`; function and lambda bodies are lazy and skipped) that nothing in the enclosing scopes
+    binds and that are no builtins: each is a NameError at import time.  Order of binding is not judged."""
+    import builtins
+    future_ann = any(isinstance(st, ast.ImportFrom) and st.module == "__future__" and any(a.name == "annotations" for a in st.names) for st in tree.body)
+    known = set(dir(builtins)) | {"__name__", "__file__", "__doc__", "__package__", "__spec__", "__path__", "__loader__", "__builtins__", "__qualname__", "__module__", "__class__"}
+    scopes = [_bind_names(tree.body)]
+    out = []
+
+    class V(ast.NodeVisitor):
+        def visit_Name(self, n):
+            if isinstance(n.ctx, ast.Load) and n.id not in known and not any(n.id in sc for sc in scopes):
+                out.append((n.id, n.lineno))
+
+        def _func(self, n):
+            for d in n.decorator_list: self.visit(d)
+            for d in n.args.defaults + [k for k in n.args.kw_defaults if k is not None]: self.visit(d)
+            if not future_ann:
+                for a in n.args.posonlyargs + n.args.args + n.args.kwonlyargs + [x for x in (n.args.vararg, n.args.kwarg) if x]:
+                    if a.annotation is not None: self.visit(a.annotation)
+                if n.returns is not None: self.visit(n.returns)
+        visit_FunctionDef = _func
+        visit_AsyncFunctionDef = _func
+
+        def visit_Lambda(self, n):
+            for d in n.args.defaults + [k for k in n.args.kw_defaults if k is not None]: self.visit(d)
+
+        def visit_ClassDef(self, n):
+            for d in n.decorator_list + n.bases + [k.value for k in n.keywords]: self.visit(d)
+            scopes.append(_bind_names(n.body))
+            for st in n.body: self.visit(st)
+            scopes.pop()
+
+        def visit_AnnAssign(self, n):
+            if not future_ann: self.visit(n.annotation)
+            if n.value is not None: self.visit(n.value)
+            if not isinstance(n.target, ast.Name): self.visit(n.target)
+
+        def _comp(self, n):
+            bound = set()
+            for g in n.generators:
+                for t in ast.walk(g.target):
+                    if isinstance(t, ast.Name): bound.add(t.id)
+            scopes.append(bound); self.generic_visit(n); scopes.pop()
+        visit_ListComp = visit_SetComp = visit_DictComp = visit_GeneratorExp = _comp
+    V().visit(tree)
+    return out
+
+
+def name_error_oracle(ctx, res, api, spec, payload):
+    """ORACLE: no module of the emitted package reads, while it is being imported, a name that nothing binds (the NameError that
+    `import` would raise, exhibited with the module, the line and the name — e.g. a types module that uses `common.Tag` without
+    importing `common`)."""
+    nsd = list(api.naming.module_namespace)
+    roots = [nsd + api.naming.versioned_module_name.split("."), nsd + api.naming.module_name.split(".")]
+    for f in res.file:
+        if not f.name.endswith(".py") or f.name.startswith(LIB_SKIP) or "/" not in f.name:
+            continue
+        parts = f.name.split("/")[:-1]
+        if not any(parts[:len(r)] == r for r in roots):
+            continue
+        try:
+            tree = ast.parse(f.content)
+        except SyntaxError:
+            continue
+        und = eager_undefined_names(tree)
+        ctx.count("name_oracle", "undefined" if und else "clean")
+        if und:
+            kind = "types" if "/types/" in f.name else os.path.basename(f.name)
+            ctx.fail(f"undefined-name:{kind}", f"{f.name}:{und[0][1]}: `{und[0][0]}` is read when the module is imported but nothing binds it "
+                     f"({len(und)} such read(s): {sorted({u[0] for u in und})[:6]})", payload)
+
+
 def static_import_oracle(ctx, res, api, spec, payload):
     """ORACLE (independent of the model): every import statement between modules of the emitted package that is executed
     unconditionally when its module is imported names an emitted module, and every name taken `from` it is a sub-module or is
@@ -80,7 +189,7 @@ def static_import_oracle(ctx, res, api, spec, payload):
     names = {f.name for f in res.file}
     content = {f.name: f.content for f in res.file}
     nsd = list(api.naming.module_namespace)
-    roots = [nsd + [api.naming.versioned_module_name], nsd + [api.naming.module_name]]
+    roots = [nsd + api.naming.versioned_module_name.split("."), nsd + api.naming.module_name.split(".")]     # (old naming: `lib.v1`)
     trees = {}
 
     def tree_of(fn):
@@ -134,6 +243,40 @@ def static_import_oracle(ctx, res, api, spec, payload):
         if key == "unresolved-import:async_client.py->grpc_asyncio" and spec.get("rest_async") and "grpc" not in spec["transport"]:
             key = "import-error:async-rest-without-grpc"
         ctx.fail(key, "an import between emitted modules cannot succeed: " + what, payload)
+
+
+def sample_import_oracle(ctx, res, api, payload):
+    """every generated sample that parses imports the library by a name that exists in the emitted layout: an import whose first
+    segment is the library's own top-level directory must name an emitted package/module (`from acme import lib_v1`, `import solo_v2`),
+    and each sample has such an import of the versioned package"""
+    names = {f.name for f in res.file}
+    nsd = list(api.naming.module_namespace)
+    vroot = nsd + api.naming.versioned_module_name.split(".")
+    for f in res.file:
+        if not (f.name.startswith("samples/") and f.name.endswith(".py")):
+            continue
+        try:
+            tree = ast.parse(f.content)
+        except SyntaxError:
+            continue          # already reported by the parse clause
+        targets = []
+        for st in tree.body:
+            if isinstance(st, ast.Import):
+                targets += [a.name.split(".") for a in st.names]
+            elif isinstance(st, ast.ImportFrom) and not st.level and st.module:
+                mparts = st.module.split(".")
+                for a in st.names:       # `from pkg import module` or `from pkg.module import Name`
+                    full = mparts + [a.name]
+                    is_mod = "/".join(full) + "/__init__.py" in names or "/".join(full) + ".py" in names
+                    targets.append(full if is_mod or mparts[0] != vroot[0] or len(mparts) < len(vroot) else mparts)
+        own = [t for t in targets if t[0] == vroot[0]]
+        ctx.count("sample_imports", "own" if own else "none")
+        for t in own:
+            pth = "/".join(t)
+            if pth + "/__init__.py" not in names and pth + ".py" not in names:
+                ctx.fail("sample-import-unresolved", f"{f.name} imports {'.'.join(t)}, which the emitted layout does not have", payload)
+        if not any(t[:len(vroot)] == vroot for t in own):
+            ctx.fail("sample-import-unresolved", f"{f.name} does not import the versioned package {'.'.join(vroot)} (imports {own})", payload)
 
 
 def service_import_graph(ctx, res, api, o, rest_async, payload):
@@ -401,7 +544,107 @@ def namespaceless_specs():
     return out
 
 
+# ---- one file references another in exactly ONE way -------------------------------------------------------------------------------
+FIELD_WAYS = ["plain", "repeated", "oneof", "map_value", "nested_field", "nested_map", "nested_oneof", "nested_repeated"]
+METHOD_WAYS = ["lro_response", "lro_metadata", "method_output", "method_input", "paged_item", "resource_ref"]
+
+
+def only_ref_matrix():
+    """(way, kind, where): `way` is the only reference from library.proto to the other file, which lies in the same package, in a proto
+    sub-package, in a dependency package (a _pb2 module) or is google/protobuf/timestamp.proto"""
+    out = []
+    for where in ("same", "sub", "dep", "wkt"):
+        for way in FIELD_WAYS:
+            out.append((way, "message", where))
+            if where != "wkt":
+                out.append((way, "enum", where))
+        if where in ("same", "sub"):
+            out += [(w, "message", where) for w in METHOD_WAYS]
+        elif where == "dep":
+            out += [(w, "message", where) for w in ("lro_response", "lro_metadata", "method_output", "method_input")]
+    return out
+
+
+def only_ref_spec(way, kind, where, tr="grpc+rest", mirror=False):
+    pkg = "acme.lib.v1"
+    return {"pkg": pkg, "only_ref": {"way": way, "kind": kind, "where": where, "mirror": mirror}, "dep_pkg": where == "dep", "sub": "admin" if where == "sub" else None,
+            "service_in_sub": False, "service_yaml": False, "ads": False, "files": [], "opts": [f"transport={tr}", "autogen-snippets=false"], "transport": tr.split("+")}
+
+
+def build_only_ref(spec):
+    """library.proto (message Book, service Library) and one other file; `way` is the only thing in library.proto that names the other
+    file.  With `mirror`, a third file references the other file in the ordinary way (a plain field), so that the other file is not
+    otherwise unused by the API."""
+    o = spec["only_ref"]
+    way, kind, where = o["way"], o["kind"], o["where"]
+    pkg = spec["pkg"]
+    files, targets = [], []
+    if where == "dep":
+        other = apigen.File("other/common/v1/shared.proto", "other.common.v1", deps=[])
+        files.append(other)
+    elif where == "wkt":
+        other = None
+    else:
+        opkg = pkg + (".admin" if where == "sub" else "")
+        other = apigen.File("/".join(opkg.split(".")) + "/common.proto", opkg)
+        files.append(other); targets.append(other)
+    if other is not None:
+        tag = other.msg("Tag"); tag.field("name"); tag.field("weight", "double")
+        genre = other.enum("Genre", ["GENRE_UNSPECIFIED", "FICTION"])
+        treq = other.msg("TagRequest"); treq.field("name")
+        if where != "dep":
+            tag.resource("lib.example.com/Tag", "projects/{project}/tags/{tag}")
+        msg_t, enum_t = tag, genre
+    else:
+        msg_t, enum_t, treq = ".google.protobuf.Timestamp", None, None
+    lib = apigen.File("/".join(pkg.split(".")) + "/library.proto", pkg)
+    if other is not None:
+        lib.dep(other.name)
+    files.append(lib); targets.append(lib)
+    book = lib.msg("Book"); book.field("name")
+    typ, tname = ("message", msg_t) if kind == "message" else ("enum", enum_t)
+    host = book
+    if way.startswith("nested_"):
+        host = book.nested("Detail"); host.field("note")
+    if way in ("plain", "nested_field"):
+        host.field("tag", typ, type_name=tname)
+    elif way in ("repeated", "nested_repeated"):
+        host.field("tags", typ, repeated=True, type_name=tname)
+    elif way in ("oneof", "nested_oneof"):
+        host.field("tag", typ, type_name=tname, oneof="choice"); host.field("other", "string", oneof="choice")
+    elif way in ("map_value", "nested_map"):
+        host.map_field("tags", "string", typ, vtype_name=tname)
+    elif way == "resource_ref":
+        book.field("tag_name", "string", ref="lib.example.com/Tag")
+    if host is not book:
+        book.field("detail", "message", type_name=host)
+    svc = lib.service("Library")
+    rq = lib.msg("GetBookRequest"); rq.field("name", "string", 1)
+    svc.method("GetBook", rq, book, http=("get", "/v1/{name=books/*}"), sigs=["name"])
+    if way in ("lro_response", "lro_metadata"):
+        rq2 = lib.msg("MakeBookRequest"); rq2.field("name", "string", 1)
+        lro = (tag.full, "google.protobuf.Empty") if way == "lro_response" else ("google.protobuf.Empty", tag.full)
+        svc.method("MakeBook", rq2, ".google.longrunning.Operation", http=("post", "/v1/{name=books/*}:make"), body="*", lro=lro)
+    elif way == "method_output":
+        rq2 = lib.msg("FindTagRequest"); rq2.field("name", "string", 1)
+        svc.method("FindTag", rq2, tag, http=("get", "/v1/{name=tags/*}"))
+    elif way == "method_input":
+        svc.method("CheckTag", treq, book, http=("post", "/v1/{name=tags/*}:check"), body="*")
+    elif way == "paged_item":
+        prq = lib.msg("ListTagsRequest"); prq.field("parent"); prq.field("page_size", "int32"); prq.field("page_token")
+        # the page response lives in the OTHER file's package?  no: in library.proto; its items are the only reference
+        prs = lib.msg("ListTagsResponse"); prs.field("tags", "message", repeated=True, type_name=tag); prs.field("next_page_token")
+        svc.method("ListTags", prq, prs, http=("get", "/v1/{parent=things/*}/tags"))
+    if o.get("mirror") and other is not None and where != "dep":
+        third = apigen.File("/".join(pkg.split(".")) + "/extras.proto", pkg); third.dep(other.name)
+        ex = third.msg("Extra"); ex.field("name"); ex.field("tag", "message", type_name=tag); ex.field("genre", "enum", type_name=genre)
+        files.append(third); targets.append(third)
+    return files, targets
+
+
 def build(spec):
+    if "only_ref" in spec:
+        return build_only_ref(spec)
     files = []
     dep = None
     if spec["dep_pkg"]:
@@ -569,6 +812,8 @@ def run_case(ctx, spec, label):
         api, o = genrun.build_api(req)
         ex0 = api.all_library_settings[api.naming.proto_package].python_settings.experimental_features
         static_import_oracle(ctx, res, api, spec, payload)
+        sample_import_oracle(ctx, res, api, payload)
+        name_error_oracle(ctx, res, api, spec, payload)
         if not spec["ads"]:
             service_import_graph(ctx, res, api, o, ex0.rest_async_io_enabled, payload)
         small = [f for f in res.file if len(f.content) < 3000 and not f.name.startswith("samples/")]
@@ -659,7 +904,9 @@ def run(ctx):
     ctx.rule = ("general profile: proto package with or without namespace segments / version, 1..3 files (optionally one in a proto sub-package, optionally a dependency package), messages with scalar/"
                 "enum/message/map/repeated/optional/self-recursive/well-known/cross-package fields, nested types, oneofs, resources, 1..2 "
                 "services (optionally one more in the sub-package) with unary/void/paged/LRO/streaming methods, HTTP rules and signatures x options (transport incl. rest+grpc, numeric enums, metadata, "
-                "snippets, name/namespace/warehouse overrides, service-yaml, ads templates + old-naming); distinct by spec")
+                "snippets, name/namespace/warehouse overrides, service-yaml, ads templates + old-naming) + the only-reference family (library.proto names another "
+                "file — same package, sub-package, dependency package, well-known type — in exactly one way: plain/repeated/oneof/map-value field, the same "
+                "inside a nested message, LRO response/metadata, method input/output, page item, resource reference); distinct by spec")
     ctx.assume("the alternative (ads) template set offers no asyncio client or transport: for it only the synchronous surface is checked")
     ctx.assume("a proto package without a version segment has no proto sub-packages (Naming.build rejects `solo` + `solo.admin`)")
     ctx.assume("Python's parser and importer are not modelled: `parses and imports` is decided by execution on every case")
@@ -677,6 +924,17 @@ def run(ctx):
     for k, spec in enumerate(namespaceless_specs()):
         run_case(ctx, spec, f"nons{k}")
         ctx.case({"nons": k, "pkg": spec["pkg"], "opts": spec["opts"]}, distinct_key=["nons", k])
+    # one file references another in exactly one way (map value, oneof member, nested field, LRO type, method input/output, ...)
+    ro = ctx.rng("only-ref")
+    matrix = only_ref_matrix()
+    fixed = [(w, k, wh) for (w, k, wh) in matrix if w in ("map_value", "nested_map") and wh in ("same", "wkt") and (k == "message" or w == "map_value")]
+    rest = [m for m in matrix if m not in fixed]
+    ro.shuffle(rest)
+    for k, (way, kind, where) in enumerate(fixed + rest[:ctx.n(10, len(rest))]):
+        spec = only_ref_spec(way, kind, where, tr=ro.pick(["grpc", "rest", "grpc+rest"]), mirror=ro.maybe(0.3))
+        run_case(ctx, spec, f"onlyref{k}")
+        ctx.count("only_ref", f"{way}:{kind}:{where}")
+        ctx.case({"only_ref": [way, kind, where]} if k < 2 else None, distinct_key=["only_ref", way, kind, where, spec["only_ref"]["mirror"], spec["opts"][0]])
     for i in range(ctx.n(20, 500)):
         spec = gen_spec(r)
         run_case(ctx, spec, f"case{i}")
